@@ -55,6 +55,40 @@ def r2c_log_checked_entry_by_entry(ck, cmd_push):
                 found.append("%s over both lists in step" % last)
         if last in ("starts_with", "eq", "ne") and len(t["argtys"]) == 2 and all(is_path(a) and ("[" in a or "Iter<" in a or "Map<" in a or "Vec<" in a) for a in t["argtys"]):
             found.append("%s of the two name sequences" % last)
+    # ... on every path: the number of applied patches the push starts from is not available without having gone through the walk
+    walk_bbs = set()
+    for il in pt.iterator_loops(cmd_push):
+        if stepwise(il["iter_ty"]) and compares_names(cmd_push, set(il["body"])):
+            walk_bbs.add(il["head"])
+    for bb, t in cmd_push.calls():
+        last = (callee_of(t).get("path") or "").split("::")[-1]
+        if not cmd_push.blocks[bb]["cleanup"] and last in ("find", "any", "all", "position", "try_for_each", "for_each", "find_map", "starts_with", "eq", "ne") and \
+                t["argtys"] and (stepwise(t["argtys"][0]) or (last in ("starts_with", "eq", "ne") and all(is_path(a) for a in t["argtys"]))):
+            walk_bbs.add(bb)
+    reads = [bb for bb, t, c in calls_named(cmd_push, A["read_series"]) if df.mentions(df.operand_expr(cmd_push, t["args"][0]), lambda x: df.is_const(x) and isinstance(x[1], str) and "applied-patches" in x[1])]
+    slices = [bb for bb, t in cmd_push.calls() if (callee_of(t).get("rpath") or "").endswith("::index") and t["argtys"] and "SeriesPatch" in t["argtys"][0] and
+              len(t["argtys"]) > 1 and "Range<usize>" in t["argtys"][1]]
+    if found and walk_bbs and reads and slices:
+        from .. import pathconst
+        # the log was read successfully (Ok edge) and has at least one entry: can the slice be reached round the walk?
+        ok_edges = []
+        for sw in pt.discr_switches(cmd_push, lambda e_, rv: df.mentions(e_, lambda x: df.is_call(x, "read_series_file")) and
+                                    df.mentions(e_, lambda x: df.is_const(x) and isinstance(x[1], str) and "applied-patches" in x[1])):
+            if sw["edges"].get("Ok") and not cmd_push.blocks[sw["bb"]]["cleanup"]:
+                ok_edges.append(sw["edges"]["Ok"])
+        round_it = False
+        # drop elaboration tests the same discriminant again after the walk: only the test the walk hangs on counts
+        ok_edges = [e_ for e_ in ok_edges if cfg.reachable(cmd_push, [e_[1]]) & walk_bbs]
+        for e_ in ok_edges:
+            r = cfg.reachable(cmd_push, [e_[1]], blocked=walk_bbs)
+            if any(sb in r for sb in slices):
+                round_it = True
+        if ok_edges and round_it:
+            found = []
+            ck.violate(rule, "the walk over series and log is on every path from reading the log to pushing",
+                       "after .pc/applied-patches was read, the range of patches to push can be reached without the entry-by-entry comparison "
+                       "(a shortcut decides that the log is fine): an edited log can slip through", cmd_push.where(cmd_push.blocks[slices[0]]["term"]))
+            return
     ck.require(bool(found), rule, "every entry of .pc/applied-patches is compared with the series entry at its position",
                "cmd_push has no walk over the series and the log in step that compares the names (nor a whole-sequence comparison): a "
                "reordered or edited .pc/applied-patches would be accepted and patches pushed on top of an unknown tree", cmd_push.where(),
